@@ -107,6 +107,8 @@ func runC05(c *core.Ctx) {
 		}
 	}
 	c.Floor("ABS6", 4, "Limit.Run, produceOrderByItems, two printer loops")
+	c.Rule("LIMNEG", "every limit site rejects a negative limit")
+	checkNegativeLimit(c, ids)
 	checkSelection(c)
 	checkLimitSentinel(c)
 	checkOrderedEmitters(c)
@@ -298,4 +300,59 @@ func limitZeroGuard(c *core.Ctx, p *core.Program, fn *core.FuncRef, ids map[stri
 		}
 	}
 	return true, ""
+}
+
+// checkNegativeLimit (LIMNEG): every node that evaluates a limit rejects a negative one before running its source —
+// siblings must agree, otherwise LIMIT -1 is an error in one output mode or nesting and "all rows" in another.
+func checkNegativeLimit(c *core.Ctx, ids map[string]int64) {
+	p := c.Prog
+	n := 0
+	for _, name := range []string{"(*Limit).Run", "(*OrderSensitiveTransform).Run"} {
+		fn := p.Func("execution/nodes", name)
+		key := "execution/nodes." + name
+		if fn == nil {
+			c.Unknown("LIMNEG", key, 0, "anchor not found")
+			continue
+		}
+		n++
+		c.SawFunc(key)
+		in := newInterp(p, fn)
+		ranSource := false
+		in.Hooks.Cond = func(st *absint.State, atom string) (bool, bool) {
+			if strings.HasSuffix(atom, ".limit == nil)") || strings.HasPrefix(atom, "(nil == ") && strings.HasSuffix(atom, ".limit)") {
+				return false, true
+			}
+			if strings.HasSuffix(atom, ".limit != nil)") || strings.HasPrefix(atom, "(nil != ") && strings.HasSuffix(atom, ".limit)") {
+				return true, true
+			}
+			return false, false
+		}
+		in.Hooks.Call = chainCall(func(st *absint.State, call *ast.CallExpr, callee string, recv absint.Val, args []absint.Val) (absint.Val, bool) {
+			switch callee {
+			case "execution.Expression.Evaluate":
+				return absint.Tuple{Elems: []absint.Val{mkValue(st, ids, "TypeIDInt", "Int", absint.Int(-1)), absint.Nil{}}}, true
+			case "execution.Node.Run":
+				ranSource = true
+				return absint.Nil{}, true
+			}
+			return nil, false
+		}, ctorHook(ids), errorfHook)
+		outs, err := runDecl(in, fn, nil, "")
+		if err != nil {
+			c.Unknown("LIMNEG", key, fn.Decl.Pos(), err.Error())
+			continue
+		}
+		bad := ""
+		if ranSource {
+			bad = "with the limit evaluating to -1 the source is run: the counter never equals the limit, so every row is returned, while the sibling limit sites report \"limit must be positive\""
+		}
+		for _, o := range outs {
+			if bad == "" && (o.Kind != "return" || len(o.Values) != 1 || !isNonNilErr(o.Values[0])) {
+				bad = "with a negative limit the node must fail; it " + o.String()
+			}
+		}
+		c.Decide(bad == "" && len(outs) > 0, "LIMNEG", key, fn.Decl.Pos(), len(outs), "a negative limit is an error before the source runs", bad)
+	}
+	c.Floor("LIMNEG", 2, "Limit.Run and OrderSensitiveTransform.Run")
+	_ = n
 }
